@@ -408,6 +408,26 @@ def within_basis(rep, M, rid):
             rep.violation(rid, f"get_positions_within_basis: `{norm(node)}`", f"the image range of axis {want_k} runs from component {ki} of the minimum to component {kj} of the "
                           f"maximum{'' if plus1 else ' (upper end not included)'}: periodic copies along that axis are missed or the range is empty, so atoms near a cell face fail "
                           "as seeds and whole slabs are dropped", M.where(fq, node))
+    # (2b) the bounds are image numbers = floor of the (unwrapped, possibly negative) scaled corner coordinates; a bare integer cast truncates
+    #      towards zero and loses the lowest image
+    fl = Flow(fn)
+    for nm, ki, kj, plus1, node in rngs:
+        sl = fl.slice(node.value.args[0], fl.node_of(node))
+        calls = [c for e in sl["exprs"] for c in ast.walk(e) if isinstance(c, ast.Call)]
+        floors = [c for c in calls if (M.ext_name(fq, c.func) or "") in ("numpy.floor", "math.floor", "numpy.floor_divide")] + \
+                 [x for e in sl["exprs"] for x in ast.walk(e) if isinstance(x, ast.BinOp) and isinstance(x.op, ast.FloorDiv)]
+        casts = [c for c in calls if (isinstance(c.func, ast.Attribute) and c.func.attr == "astype") or (isinstance(c.func, ast.Name) and c.func.id == "int")
+                 or (M.ext_name(fq, c.func) or "") in ("numpy.trunc", "numpy.rint", "numpy.round", "numpy.around", "numpy.fix")]
+        scaled = any(GEO + ".to_scaled" in M.callees_of_call(fq, c) for c in calls)
+        if not scaled:
+            raise AnalysisError(f"get_positions_within_basis: the bound of `{nm}` is not derived from scaled corner coordinates")
+        if floors:
+            rep.ok(rid, f"get_positions_within_basis: the lower bound of `{nm}` is a floor of the scaled corner coordinates")
+        else:
+            rep.violation(rid, f"get_positions_within_basis: image numbers of `{nm}`", f"the scaled corner coordinates become image numbers through "
+                          f"`{norm(casts[0])[:50] if casts else 'no rounding'}` without a floor: a cast truncates towards zero, so a corner at -0.3 is put into image 0 "
+                          "instead of -1 and the periodic copies in the lowest image are never searched (atoms near the lower cell faces lose their occurrences)",
+                          M.where(fq, casts[0] if casts else node))
     cart = [c for c in ast.walk(fn) if isinstance(c, ast.Call) and norm(c.func).endswith("cartesian") and c.args and isinstance(c.args[0], (ast.Tuple, ast.List))]
     if cart and [norm(e) for e in cart[0].args[0].elts] == [r[0] for r in rngs]:
         rep.ok(rid, "get_positions_within_basis: the image offsets are the product of the three ranges in axis order")
@@ -551,7 +571,7 @@ def run(rep, ctx):
         within_basis(rep, M, "R04.11")
     rep.rule("R04.12", "get_clusters derives everything it uses from this call's arguments: no finder, cell list or table is carried over from a previous call (shared with C01)")
     with rep.guard("R04.12"):
-        c01.call_local_state(rep, M, "R04.12", c01.GC)
+        c01.call_local_state(rep, M, "R04.12", c01.GC, generators_exempt=True)
     rep.rule("R04.13", "no function keeps results in module-level state or functools caches (answers do not depend on what the process analysed before)")
     with rep.guard("R04.13"):
         from .. import symrules as _SRms
